@@ -28,6 +28,7 @@ def run(chk):
     batcher.watcher_lists(chk, P, "C07")
     batcher.retry_remainder(chk, P, "C07")
     batcher.who_may(chk, P, "C07")
+    batcher.state_stays_inside(chk, P, "C07")
     batcher.constructor_rule(chk, P, "C07")
     batcher.blocking_flush_sync(chk, P, "C07")
     batcher.tokio_wait(chk, P, "C07")
@@ -179,6 +180,24 @@ def end_to_end(chk, P, prefix="C07", only=None):
                             t = mir.truthy(vals)
                             if t is not None and (t != neg) is False:
                                 return False, "flush returns true on a path where a signal's flush failed", [], b.span
+        # every signal's outcome takes part in the answer: along any path, the result of each flush that ran is either tested (a decision of the
+        # path) or is (part of) what the path returns - an outcome that is overwritten by the next signal's is lost
+        for rb in b.return_blocks():
+            for path in b.acyclic_paths(0, rb, limit=20000):
+                ps = mir.PathSummary(b, path)
+                on_path = [c for c in fl if c.bb in set(path)]
+                if not on_path:
+                    continue
+                tested = set()
+                for bbx, o, vals in ps.decisions():
+                    for k_, v_ in common.roots(o):
+                        if k_ == "callsite":
+                            tested.add(v_)
+                ret_roots = {v_ for k_, v_ in common.roots(ps.ret()) if k_ == "callsite"}
+                for c in on_path:
+                    if c.bb not in tested and c.bb not in ret_roots:
+                        return False, ("the outcome of the signal flush at %s is neither tested nor part of what OtlpInner::blocking_flush returns on a path that ran "
+                                       "it (it is overwritten by a later signal's): a signal that timed out with requests unanswered does not fail the flush" % c.loc), [], c.loc
         return True, "", [c.loc for c in fl]
     _ob(chk, prefix, only, "R5:OtlpInner::blocking_flush", "every configured OTLP signal is flushed and a failed one fails the flush", otlp_flush)
 
